@@ -56,6 +56,15 @@ def gen_cases(tier, seed):
         if pre == "":
             names = ["n" + x for x in names]
         cases.append({"kind": "vsm", "names": names})
+    # two numeric chunks: the names agree on the first one (value and zeros) and differ in the zeros of a later one
+    for _ in range(nmat // 4):
+        pre = rnd.choice(["x", "v", "b", "arm_v"])
+        first = rnd.choice(["1", "86", "7", "01", "2"])
+        sep = rnd.choice(["_", "c", "_x"])
+        second = rnd.choice(["1", "64", "3"])
+        names = [pre + first + sep + ("0" * z) + second for z in rnd.sample(range(0, 4), rnd.randint(2, 4))] + [pre + first + sep + "9", pre + first]
+        rnd.shuffle(names)
+        cases.append({"kind": "vsm", "names": names})
     # compare_items on mod / extern crate groups
     nit = 60 if tier == "quick" else 600
     for _ in range(nit):
